@@ -188,8 +188,8 @@ def WalkGoal (P : String) (st st' : NState) (rel : Prop) : Prop :=
 mutual
 theorem normSel_rel : ∀ (x : Selection) (P : String) (st : NState) (final : List Entry),
     EntriesOK s st.entries → LexSel x → (∀ v ∈ selVars x, Ag vars vars' v) →
-    (∃ es, final = (normSel s P x st).2.entries ++ es) → Realises s vars' final →
-    WalkGoal s P st (normSel s P x st).2 (RSel s vars vars' P x (normSel s P x st).1)
+    (∃ es, final = (normSel s keep P x st).2.entries ++ es) → Realises s vars' final →
+    WalkGoal s P st (normSel s keep P x st).2 (RSel s vars vars' P x (normSel s keep P x st).1)
   | .field al nm args dirs sel loc, P, st, final, hes, hlex, hag, hfin, hre => by
     simp only [selVars, List.mem_append] at hag
     simp only [LexSel] at hlex
@@ -202,39 +202,50 @@ theorem normSel_rel : ∀ (x : Selection) (P : String) (st : NState) (final : Li
       rw [hsch.2 P nm.value fd hfd'] at hfd; cases hfd
     | some fd =>
       obtain ⟨hnd, hin⟩ := hsch.1 P nm.value fd hfd
-      have haok := argsOK_of_lex s fd.args hin args hlex.1
-      obtain ⟨⟨esA, hesA⟩, _, _⟩ := normArgs_entries s fd.args args st
-      have hesOK1 := normArgs_entriesOK s fd.args args st hes haok
+      -- the argument part, for both kinds of field (arguments kept because the response key occurs in a fragment
+      -- definition / arguments extracted against the field's definitions)
+      have hargs : ∃ esA, (normArgs s (argDefsFor keep (respKey al nm) fd) args st).2.entries = st.entries ++ esA ∧
+          EntriesOK s (normArgs s (argDefsFor keep (respKey al nm) fd) args st).2.entries ∧
+          (Realises s vars' (normArgs s (argDefsFor keep (respKey al nm) fd) args st).2.entries →
+            getArgumentValues s fd.args (normArgs s (argDefsFor keep (respKey al nm) fd) args st).1 vars' =
+              getArgumentValues s fd.args args vars) := by
+        rcases argDefsFor_cases keep (respKey al nm) fd with ⟨_, hD⟩ | ⟨_, hD⟩
+        · rw [hD, normArgs_nil]
+          exact ⟨[], by simp, hes, fun _ =>
+            getArgumentValues_congr s fd.args args vars' vars (fun v hv => hag v (Or.inl (Or.inl hv)))⟩
+        · rw [hD]
+          have haok := argsOK_of_lex s fd.args hin args hlex.1
+          obtain ⟨⟨esA, hesA⟩, _, _⟩ := normArgs_entries s fd.args args st
+          exact ⟨esA, hesA, normArgs_entriesOK s fd.args args st hes haok, fun hreA =>
+            normalize_args_transparent_core s hcc fd.args hnd args st vars vars' hes haok
+              (fun v hv => hag v (Or.inl (Or.inl hv))) hreA⟩
+      obtain ⟨esA, hesA, hesOK1, hargsT⟩ := hargs
       by_cases ho : s.isObject fd.type.namedName = true
       · simp only [normSel, hfd, ho, if_true] at hfin
         simp only [normSel, hfd, ho, if_true, WalkGoal, RSel]
         obtain ⟨esF, hesF⟩ := hfin
-        have ihO := normOpt_rel sel fd.type.namedName (normArgs s fd.args args st).2 final hesOK1 hlex.2
+        have ihO := normOpt_rel sel fd.type.namedName (normArgs s (argDefsFor keep (respKey al nm) fd) args st).2 final hesOK1 hlex.2
           (fun v hv => hag v (Or.inr hv)) ⟨esF, hesF⟩ hre
         obtain ⟨hrel, hesOK2, esO, hesO⟩ := ihO
-        have hreA : Realises s vars' (normArgs s fd.args args st).2.entries := by
+        have hreA : Realises s vars' (normArgs s (argDefsFor keep (respKey al nm) fd) args st).2.entries := by
           rw [hesF, hesO, List.append_assoc] at hre; exact realises_prefix hre
         refine ⟨⟨al, nm, _, dirs, _, loc, rfl, rfl, rfl, hdirs, fun fd' hfd' => ?_⟩, hesOK2, esA ++ esO,
           by rw [hesO, hesA, List.append_assoc]⟩
         have : fd' = fd := by
           have := hsch.2 P nm.value fd' hfd'; rw [hfd] at this; exact (Option.some.inj this).symm
         subst this
-        refine ⟨?_, fun T hT => ?_⟩
-        · exact normalize_args_transparent_core s hcc fd'.args hnd args st vars vars' hes haok
-            (fun v hv => hag v (Or.inl (Or.inl hv))) hreA
-        · rw [hT ho]; exact hrel
+        refine ⟨hargsT hreA, fun T hT => ?_⟩
+        rw [hT ho]; exact hrel
       · simp only [normSel, hfd, ho, Bool.false_eq_true, if_false] at hfin
         simp only [normSel, hfd, ho, Bool.false_eq_true, if_false, WalkGoal, RSel]
         obtain ⟨esF, hesF⟩ := hfin
-        have hreA : Realises s vars' (normArgs s fd.args args st).2.entries := by
+        have hreA : Realises s vars' (normArgs s (argDefsFor keep (respKey al nm) fd) args st).2.entries := by
           rw [hesF] at hre; exact realises_prefix hre
         refine ⟨⟨al, nm, _, dirs, _, loc, rfl, rfl, rfl, hdirs, fun fd' hfd' => ?_⟩, hesOK1, esA, hesA⟩
         have : fd' = fd := by
           have := hsch.2 P nm.value fd' hfd'; rw [hfd] at this; exact (Option.some.inj this).symm
         subst this
-        refine ⟨?_, fun T _ => ROpt_refl s vars vars' sel T (fun v hv => hag v (Or.inr hv))⟩
-        exact normalize_args_transparent_core s hcc fd'.args hnd args st vars vars' hes haok
-          (fun v hv => hag v (Or.inl (Or.inl hv))) hreA
+        exact ⟨hargsT hreA, fun T _ => ROpt_refl s vars vars' sel T (fun v hv => hag v (Or.inr hv))⟩
   | .inline tc dirs ss loc, P, st, final, hes, hlex, hag, hfin, hre => by
     simp only [selVars, List.mem_append] at hag
     simp only [LexSel] at hlex
@@ -262,8 +273,8 @@ theorem normSel_rel : ∀ (x : Selection) (P : String) (st : NState) (final : Li
             | none => simp [hf] at ho
             | some td => cases td <;> simp [hf] at ho hab
         · simp [ho]
-    have key : ∀ Q, Q = P → RSet s vars vars' Q ss (normSet s (inlineParent s P tc) ss st).1 →
-        RSet s vars vars' P ss (normSet s (inlineParent s P tc) ss st).1 := by
+    have key : ∀ Q, Q = P → RSet s vars vars' Q ss (normSet s keep (inlineParent s P tc) ss st).1 →
+        RSet s vars vars' P ss (normSet s keep (inlineParent s P tc) ss st).1 := by
       intro Q hQ h; subst hQ; exact h
     exact key _ this hrel
   | .spread n d l, P, st, final, hes, hlex, hag, hfin, hre => by
@@ -272,8 +283,8 @@ theorem normSel_rel : ∀ (x : Selection) (P : String) (st : NState) (final : Li
     exact ⟨⟨n, d, l, rfl, rfl, included_congr s vars' vars d hag⟩, hes, [], by simp⟩
 theorem normOpt_rel : ∀ (x : Option SelectionSet) (P : String) (st : NState) (final : List Entry),
     EntriesOK s st.entries → LexOpt x → (∀ v ∈ optSetVars x, Ag vars vars' v) →
-    (∃ es, final = (normOpt s P x st).2.entries ++ es) → Realises s vars' final →
-    WalkGoal s P st (normOpt s P x st).2 (ROpt s vars vars' P x (normOpt s P x st).1)
+    (∃ es, final = (normOpt s keep P x st).2.entries ++ es) → Realises s vars' final →
+    WalkGoal s P st (normOpt s keep P x st).2 (ROpt s vars vars' P x (normOpt s keep P x st).1)
   | none, P, st, final, hes, _, _, _, _ => by
     simp only [normOpt, WalkGoal]
     exact ⟨by simp [ROpt], hes, [], by simp⟩
@@ -286,8 +297,8 @@ theorem normOpt_rel : ∀ (x : Option SelectionSet) (P : String) (st : NState) (
     exact ⟨⟨_, rfl, hrel⟩, hesOK, es, hes'⟩
 theorem normSet_rel : ∀ (x : SelectionSet) (P : String) (st : NState) (final : List Entry),
     EntriesOK s st.entries → LexSet x → (∀ v ∈ setVars x, Ag vars vars' v) →
-    (∃ es, final = (normSet s P x st).2.entries ++ es) → Realises s vars' final →
-    WalkGoal s P st (normSet s P x st).2 (RSet s vars vars' P x (normSet s P x st).1)
+    (∃ es, final = (normSet s keep P x st).2.entries ++ es) → Realises s vars' final →
+    WalkGoal s P st (normSet s keep P x st).2 (RSet s vars vars' P x (normSet s keep P x st).1)
   | .mk sels loc, P, st, final, hes, hlex, hag, hfin, hre => by
     simp only [setVars] at hag
     simp only [LexSet] at hlex
@@ -297,8 +308,8 @@ theorem normSet_rel : ∀ (x : SelectionSet) (P : String) (st : NState) (final :
     exact ⟨⟨_, loc, rfl, hrel⟩, hesOK, es, hes'⟩
 theorem normList_rel : ∀ (xs : List Selection) (P : String) (st : NState) (final : List Entry),
     EntriesOK s st.entries → LexList xs → (∀ v ∈ selsVars xs, Ag vars vars' v) →
-    (∃ es, final = (normList s P xs st).2.entries ++ es) → Realises s vars' final →
-    WalkGoal s P st (normList s P xs st).2 (RList s vars vars' P xs (normList s P xs st).1)
+    (∃ es, final = (normList s keep P xs st).2.entries ++ es) → Realises s vars' final →
+    WalkGoal s P st (normList s keep P xs st).2 (RList s vars vars' P xs (normList s keep P xs st).1)
   | [], P, st, final, hes, _, _, _, _ => by
     simp only [normList, WalkGoal]
     exact ⟨by simp [RList], hes, [], by simp⟩
@@ -309,13 +320,13 @@ theorem normList_rel : ∀ (xs : List Selection) (P : String) (st : NState) (fin
     simp only [normList, WalkGoal, RList]
     obtain ⟨esF, hesF⟩ := hfin
     -- the tail first (it knows the final list), then the head
-    have hentX : ∃ es, (normList s P xs (normSel s P x st).2).2.entries = (normSel s P x st).2.entries ++ es := by
-      exact normList_entries_ext s xs P (normSel s P x st).2
+    have hentX : ∃ es, (normList s keep P xs (normSel s keep P x st).2).2.entries = (normSel s keep P x st).2.entries ++ es := by
+      exact normList_entries_ext s xs P (normSel s keep P x st).2
     obtain ⟨esT, hesT⟩ := hentX
     have hX := normSel_rel x P st final hes hlex.1 (fun v hv => hag v (Or.inl hv))
       ⟨esT ++ esF, by rw [hesF, hesT, List.append_assoc]⟩ hre
     obtain ⟨hrelX, hesOKX, esX, hesX⟩ := hX
-    have hT := normList_rel xs P (normSel s P x st).2 final hesOKX hlex.2 (fun v hv => hag v (Or.inr hv))
+    have hT := normList_rel xs P (normSel s keep P x st).2 final hesOKX hlex.2 (fun v hv => hag v (Or.inr hv))
       ⟨esF, hesF⟩ hre
     obtain ⟨hrelT, hesOKT, esT', hesT'⟩ := hT
     exact ⟨⟨_, _, rfl, hrelX, hrelT⟩, hesOKT, esX ++ esT', by rw [hesT', hesX, List.append_assoc]⟩
